@@ -51,7 +51,8 @@ func (u *memoryManagementUnit) getFromL3(addrs []int32) ([]int8, bool, bool) {
 				}
 			}
 
-			u.pendings = append(u.pendings, [2]int32{addr, addr + l3CacheLineSize + 1})
+			base := addr - addr%l3CacheLineSize
+			u.pendings = append(u.pendings, [2]int32{base, base + l3CacheLineSize})
 			return nil, false, false
 		}
 		memory = append(memory, v)
@@ -64,8 +65,12 @@ func (u *memoryManagementUnit) doesExecutionMemoryChangesExistsInL3(execution ri
 	for addr := range execution.MemoryChanges {
 		addrs = append(addrs, addr)
 	}
-	_, _, exists := u.getFromL3(addrs)
-	return exists
+	for _, addr := range addrs {
+		if _, exists := u.l3.Get(addr); !exists {
+			return false
+		}
+	}
+	return true
 }
 
 func (u *memoryManagementUnit) writeExecutionMemoryChangesToL3(execution risc.Execution) {
@@ -99,6 +104,8 @@ func (u *memoryManagementUnit) getFromMemory(addrs []int32) []int8 {
 }
 
 func (u *memoryManagementUnit) fetchCacheLine(addr int32) []int8 {
+	// Cache lines are aligned on their size
+	addr -= addr % l3CacheLineSize
 	memory := make([]int8, 0, l3CacheLineSize)
 	for i := 0; i < l3CacheLineSize; i++ {
 		if int(addr)+i >= len(u.ctx.Memory) {
@@ -111,21 +118,20 @@ func (u *memoryManagementUnit) fetchCacheLine(addr int32) []int8 {
 }
 
 func (u *memoryManagementUnit) pushLineToL3(addr comp.AlignedAddress, line []int8) {
-	evicted := u.l3.PushLine(addr, line)
+	addr -= addr % l3CacheLineSize
+	evicted := u.l3.PushLineWithEvictionWarning(addr, line)
 	for i, pending := range u.pendings {
 		if pending[0] == int32(addr) {
-			if len(u.pendings) == 0 {
-				u.pendings = nil
-			} else {
-				u.pendings = append(u.pendings[:i], u.pendings[i+1:]...)
-			}
+			u.pendings = append(u.pendings[:i], u.pendings[i+1:]...)
 			break
 		}
 	}
-	if len(evicted) == 0 {
+	if evicted == nil {
 		return
 	}
-	u.writeToMemory(int32(addr), line)
+	// Write the evicted line back to memory
+	u.l3.EvictCacheLine(evicted.Boundary[0])
+	u.writeToMemory(int32(evicted.Boundary[0]), evicted.Data)
 }
 
 func (u *memoryManagementUnit) writeToL3(addr int32, data []int8) {
